@@ -305,11 +305,12 @@ def worker(args):
                 {"literal": lit, "std": o, "item": item, "derive": tr, "have": sorted(have), "expected": sorted(exp), "expansion": t}))
             continue
         # single whole-literal placeholder: "has any modifier" is visible in the body shape
-        if o["n"] == 1 and o.get("lits", 1) == 0:
+        if o["n"] == 1:
             total_args = nf if form == "A" else nf
             if total_args <= 1:
                 stats["transparent_checked"] += 1
-                want_transparent = (o["mods"] == "-")
+                # text or `{{`/`}}` escapes next to the placeholder are part of the output: never a bare delegation
+                want_transparent = (o["mods"] == "-") and o.get("lits", 1) == 0
                 is_transparent = ("write !" not in t and "format_args !" not in t) and DELEG_RE.search(t) is not None
                 if want_transparent != is_transparent:
                     viol.append(("modifiers:" + o["canon"].split("|", 1)[1], "literal %r: std sees modifiers=%s but derive(%s) %s: %s" % (
